@@ -26,10 +26,10 @@ import (
 
 func init() {
 	ev.Register(&ev.Prop{
-		ID:    "C10",
-		Rule:  "typed generator including balance()/overdraft()/meta() variable origins (separate early store requests), saves, sources through variables, destination-only accounts; the content gives a balance to most accounts mentioned, to @world and to unrelated accounts; oracle (differential): result (postings, metadata, or error class) identical under the stores {exact, sparse, sparse answering with nil maps, superset, static}; monitors: no request ever names world; non-trivial = the exact-store run issued >= 2 store requests, or a balance-limited account paid",
-		New:   newExecCase,
-		Check: checkC10,
+		ID:          "C10",
+		Rule:        "typed generator including balance()/overdraft()/meta() variable origins (separate early store requests), saves, sources through variables, destination-only accounts; the content gives a balance to most accounts mentioned, to @world and to unrelated accounts; oracle (differential): result (postings, metadata, or error class) identical under the stores {exact, sparse, sparse answering with nil maps, superset, static}; monitors: no request ever names world; non-trivial = the exact-store run issued >= 2 store requests, or a balance-limited account paid",
+		New:         newExecCase,
+		Check:       checkC10,
 		Assumptions: []string{"the panic of a store answering nil for a metadata request is C12's business: cases that panic are skipped here"},
 	})
 	Generators["C10"] = func(t *rapid.T, tier string) any {
@@ -185,10 +185,10 @@ func checkC10(c any) *ev.Verdict {
 
 func init() {
 	ev.Register(&ev.Prop{
-		ID:    "C11",
-		Rule:  "typed generator (all features, metadata, balance()/overdraft()/meta() origins); stores = one that hands out its own internal maps and the bundled StaticStore; oracle: (a) R sequential runs on one ParseResult, one variables map and one store give identical results; (b) deep copies of the variables map and of the store's balance and metadata maps taken before equal the maps after; (c) G goroutines running the same ParseResult with the same maps concurrently all return the sequential result, in a binary built with -race (any race report is a violation); (d) a script without overdraft() gives the same result under every flag set, with it exactly the experimental-feature error without the flag; non-trivial = success with >= 1 posting touching an account present in the store's maps",
-		New:   newExecCase,
-		Check: checkC11,
+		ID:          "C11",
+		Rule:        "typed generator (all features, metadata, balance()/overdraft()/meta() origins); stores = one that hands out its own internal maps and the bundled StaticStore; oracle: (a) R sequential runs on one ParseResult, one variables map and one store give identical results; (b) deep copies of the variables map and of the store's balance and metadata maps taken before equal the maps after; (c) G goroutines running the same ParseResult with the same maps concurrently all return the sequential result, in a binary built with -race (any race report is a violation); (d) a script without overdraft() gives the same result under every flag set, with it exactly the experimental-feature error without the flag; non-trivial = success with >= 1 posting touching an account present in the store's maps",
+		New:         newExecCase,
+		Check:       checkC11,
 		Assumptions: []string{"the race detector reports unsynchronised conflicting accesses that occur in a run, whatever their timing; execution takes no locks, so a shared write on an executed path is reported"},
 	})
 	Generators["C11"] = func(t *rapid.T, tier string) any {
@@ -468,4 +468,3 @@ func checkC11(c any) *ev.Verdict {
 	v.NonTrivial = first.OK() && touched
 	return v
 }
-
